@@ -1186,7 +1186,7 @@ fn run_sequence(cfg: &RunCfg, rep: &mut Report, seq: u64, max_steps: u64) -> (bo
                 ("fault", if with_healthy.is_empty() { 1 } else { 10 }),
                 ("recover", if with_faults.is_empty() { 1 } else if provable_any { 14 } else { 30 }),
                 ("terminate", if with_sectors.is_empty() { 1 } else { 5 }),
-                ("extend", if with_sectors.is_empty() { 1 } else { 5 }),
+                ("extend", if with_sectors.is_empty() { 1 } else if tiny { 30 } else { 5 }),
                 ("compact", if with_term.is_empty() { 1 } else { 5 }),
                 ("advance", 10),
             ];
@@ -1376,7 +1376,7 @@ fn run_sequence(cfg: &RunCfg, rep: &mut Report, seq: u64, max_steps: u64) -> (bo
                             Some(TerminateSectorsParams { terminations: vec![TerminationDeclaration { deadline: dl_used, partition: pidx, sectors: bf(&nums) }] }))?.0,
                         _ => {
                             let old = nums.iter().filter_map(|n| s.infos.get(n)).map(|i| i.expiration).max().unwrap_or(epoch + policy.min_sector_expiration);
-                            let new_exp = match r.below(8) {
+                            let new_exp = match if tiny && r.chance(4, 5) { 7 } else { r.below(8) } {
                                 0 => old - 2880,                                          // shorter: refused
                                 1 => epoch + policy.max_sector_expiration_extension + 1, // too far
                                 2 => old,
